@@ -65,12 +65,28 @@ def strip_comments(src: str) -> str:
     return '\n'.join(line.split('--')[0] for line in ''.join(out).split('\n'))
 
 
-def hygiene() -> list[str]:
-    """forbidden tokens outside comments anywhere in the Lean sources"""
-    hits = []
-    for p in sorted(LEAN_DIR.rglob('*.lean')):
-        if '.lake' in p.parts or '.audit' in p.parts:
+def import_closure(roots: list[str]) -> list[Path]:
+    """the project files a module depends on (transitively), by parsing `import Mrpro.…` lines"""
+    seen, todo = {}, list(roots)
+    while todo:
+        m = todo.pop()
+        if m in seen:
             continue
+        f = LEAN_DIR / (m.replace('.', '/') + '.lean')
+        if not f.exists():
+            continue
+        seen[m] = f
+        for mm in re.findall(r'^import\s+((?:Mrpro|Driver)[\w.]*)', f.read_text(), flags=re.M):
+            todo.append(mm)
+    return sorted(seen.values())
+
+
+def hygiene(prop: str | None = None) -> list[str]:
+    """forbidden tokens outside comments in the Lean sources the property depends on (incl. the driver)"""
+    files = import_closure([f'Mrpro.Props.{prop}', 'Driver']) if prop else [
+        p for p in sorted(LEAN_DIR.rglob('*.lean')) if '.lake' not in p.parts and '.audit' not in p.parts]
+    hits = []
+    for p in files:
         for n, line in enumerate(strip_comments(p.read_text()).split('\n'), 1):
             if FORBIDDEN.search(line):
                 hits.append(f'{p.relative_to(LEAN_DIR)}:{n}: {line.strip()[:120]}')
